@@ -63,7 +63,7 @@ RawErr == /\ Live("raw_err") /\ UNCHANGED stats /\ JudgeK(<< <<"C03.ServerAlways
 
 \* request-side expectations of a raw call: [refused (12) | flagNoEnc (13) | served]
 RawReqEnc(list) == LET g == Values(list, "grpc-encoding") IN IF g = <<>> \/ g[1] = S_identity THEN "" ELSE EncOfBytes(g[1])
-RawBodyFlagged(stim) == \E i \in 1..Len(ParseFrames(stim.raw.body).frames) : ParseFrames(stim.raw.body).frames[i].flag = 1
+RawBodyFlagged(stim) == stim.raw.flag = 1
 RawClauses(stim, sent, status, head, bytes, hints, trs, srv) ==
   LET g == RawReqEnc(sent.list)
       accept == SeqToSet(stim.server.accept)
@@ -91,7 +91,7 @@ Bodies == /\ Live("bodies")
           /\ LET off == IF ClientMode THEN SeqToSet(s.stim.client.accept) ELSE {} IN
              JudgeK(<< <<"RecorderHonest", E.req.bytes = s.reqData /\ E.resp.bytes = s.respData>>,
                        <<"HintsAligned", HintsOK(E.req.bytes, E.req.frames) /\ HintsOK(E.resp.bytes, E.resp.frames)>> >>
-                    \o (IF ClientMode /\ Tapped /\ Is(s.reqHead) THEN
+                    \o (IF ClientMode /\ Tapped /\ Is(s.reqHead) /\ ~EncRefused(s.stim) THEN   \* a refused request's body is never read
                            << <<"C03.RequestBodyIsTheMessages", BodyCarries(E.req.bytes, E.req.frames, s.stim.req.msgs, s.stim.client.send)>>,
                               <<"C05.ClientCompressesAsConfigured", IF s.stim.client.send = "" THEN NoneFlagged(E.req.bytes) ELSE AllFlagged(E.req.bytes)>> >>
                         ELSE <<>>)
